@@ -49,6 +49,10 @@ def library():
                        ("anchors_null", "myst:\n  heading_anchors: null"), ("schemes_list", "myst:\n  url_schemes: [http]")):
         add("frontmatter", name, ["---"] + body.split("\n") + ["---", "", "<http://a.b> and [t](ftp://c.d)", "", "# H"], toponly=True,
             silent=name in ("schemes_list",))
+    # keys of a YAML mapping need not be strings
+    for name, body in (("intkey", "2024: rewritten"), ("boolkey", "on: push"), ("nullkey", "~: x"), ("datekey", "2020-01-01: released"),
+                       ("floatkey", "1.5: v"), ("upperkey", "Author: Me\nDATE: today")):
+        add("frontmatter", name, ["---"] + body.split("\n") + ["---", "", "# H"], toponly=True, silent=True)
     add("frontmatter", "datelist", ["---", "a: [2020-01-01]", "b: {c: 2020-01-01}", "---"], toponly=True, silent=True)
     add("frontmatter", "unclosed", ["---", "a: 1", "", "text"], toponly=True, silent=True)
     # directive options
@@ -75,6 +79,10 @@ def library():
     add("include", "self", ["```{include} DOCNAME.md", "```"])
     add("include", "cycle", ["```{include} @@cyc_a.txt", "```"],
         files={"@@cyc_a.txt": "A\n\n```{include} @@cyc_b.txt\n```\n", "@@cyc_b.txt": "B\n\n```{include} @@cyc_a.txt\n```\n"})
+    # the same file reached under another spelling of its path
+    add("include", "self_dotdot", ["```{include} @@sub/../DOCNAME.md", "```"], files={"@@sub/x.txt": "x\n"})
+    add("include", "cycle_dotdot", ["```{include} @@dir/@@cyc_b.txt", "```"],
+        files={"@@dir/@@cyc_b.txt": "B\n\n```{include} ../@@cyc_c.txt\n```\n", "@@cyc_c.txt": "C\n\n```{include} @@dir/../@@dir/@@cyc_b.txt\n```\n"})
     add("include", "bad_option", ["```{include} @@ok.txt", ":start-line: x", "```"], files={"@@ok.txt": "ok\n"})
     add("include", "literal_missing", ["```{literalinclude} @@nosuch.py", "```"], front="sphinx")
     # inventories (docutils: myst_inventories)
